@@ -332,6 +332,9 @@ func (w *w2) identity(m *w2member, dev string) (string, int32) {
 		gen++
 	case "alien":
 		id = "no-such-member-42"
+	case "anon":
+		// a "simple consumer" commit: no member id, generation -1 (only legal while the group has no members)
+		id, gen = "", -1
 	case "other":
 		// another member's id (of any group)
 		var ids []string
@@ -483,6 +486,61 @@ func (w *w2) doCommit(m *w2member, topic string, part int32, dev string) *ev {
 	return e
 }
 
+// doMultiCommit commits several partitions (of up to two topics) in ONE request; nullMask says which of
+// them carry a null metadata string.
+func (w *w2) doMultiCommit(m *w2member, topicIdx, n int, nullMask int64) {
+	id, gen := w.identity(m, "")
+	req := kmsg.NewPtrOffsetCommitRequest()
+	req.Version, req.Group, req.MemberID, req.Generation = 3, m.group, id, gen
+	var evs []*ev
+	for i := 0; i < n; i++ {
+		topic := w2Topics[(topicIdx+i/2)%len(w2Topics)]
+		part := int32(i % 2)
+		w.nextOff++
+		off := w.nextOff
+		md := fmt.Sprintf("md%d", off)
+		var mdp *string = kmsg.StringPtr(md)
+		if nullMask&(1<<uint(i)) != 0 {
+			md, mdp = "", nil
+		}
+		e := w.record(&ev{kind: "commit", actor: m.id, group: m.group, reqMember: id, reqGen: gen, topic: topic, part: part, offset: off, meta: md})
+		evs = append(evs, e)
+		var t *kmsg.OffsetCommitRequestTopic
+		for j := range req.Topics {
+			if req.Topics[j].Topic == topic {
+				t = &req.Topics[j]
+			}
+		}
+		if t == nil {
+			nt := kmsg.NewOffsetCommitRequestTopic()
+			nt.Topic = topic
+			req.Topics = append(req.Topics, nt)
+			t = &req.Topics[len(req.Topics)-1]
+		}
+		p := kmsg.NewOffsetCommitRequestTopicPartition()
+		p.Partition, p.Offset, p.Metadata = part, off, mdp
+		t.Partitions = append(t.Partitions, p)
+	}
+	w.sim.Probe("c16.multi-partition-commit")
+	w.rpc(func(c *GroupCoordinator, ctx context.Context) any {
+		resp, err := c.OffsetCommit(ctx, req)
+		if err != nil {
+			return err
+		}
+		for _, rt := range resp.Topics {
+			for _, rp := range rt.Partitions {
+				for _, e := range evs {
+					if e.topic == rt.Topic && e.part == rp.Partition {
+						e.code = rp.ErrorCode
+						w.reply(e)
+					}
+				}
+			}
+		}
+		return resp
+	})
+}
+
 func (w *w2) doOffsetFetch(m *w2member, group, topic string, part int32) *ev {
 	e := w.record(&ev{kind: "ofetch", actor: m.id, group: group, topic: topic, part: part})
 	req := kmsg.NewPtrOffsetFetchRequest()
@@ -525,6 +583,8 @@ func (w *w2) memberOp(m *w2member, op simrt.Op) {
 		w.doLeave(m)
 	case "commit":
 		w.doCommit(m, w2Topics[int(op.B)%len(w2Topics)], int32(op.C%3), op.S)
+	case "mcommit":
+		w.doMultiCommit(m, int(op.B), int(2+op.C%3), op.D)
 	case "ofetch":
 		w.doOffsetFetch(m, group, w2Topics[int(op.B)%len(w2Topics)], int32(op.C%3))
 	case "sleep":
